@@ -78,7 +78,20 @@ def main():
         ctx.lean_ok = lean_ok
         if lean_ok:
             ctx.driver_ok = True
-        mod.run(ctx)
+        try:
+            mod.run(ctx)
+        except core.MachineryError:
+            raise
+        except Exception as e:
+            # An exception that escapes the harness from inside einx's own code means that an internal interface the
+            # correspondence relies on has changed: the tie is broken (not a machinery failure, not yet a violation).
+            tb = traceback.extract_tb(e.__traceback__)
+            repo = os.path.realpath(core.REPO)
+            if any(os.path.realpath(f.filename).startswith(repo + os.sep) for f in tb):
+                where = [f"{os.path.relpath(os.path.realpath(f.filename), repo)}:{f.lineno}" for f in tb if os.path.realpath(f.filename).startswith(repo + os.sep)][-1]
+                ctx.tie_broken("correspondence:internal-interface", f"{type(e).__name__}: {e} (at {where}); the harness could not complete")
+            else:
+                raise
         rc = ctx.finish()
         sys.exit(rc)
     except core.MachineryError as e:
